@@ -19,17 +19,19 @@ TRUSTED = ['str.isspace table, rfc1459 fold table, writer keywords and Creator m
            'file encoding: utf-8 both ways (surrogates are not generated)']
 ASSUMPTIONS = ['world.testing/log.testing off; fresh UsersDictionary/ChannelsDictionary/NetworksDictionary/IgnoresDB instances on scratch files',
                'IrcUserCreator.u / IrcChannelCreator.name / IrcNetworkCreator.name (class attributes) are part of the modelled state',
-               'ignore expiries compared at whole seconds; networks without any policy/disconnect time are not counted as lost']
+               'ignore expiries compared at whole seconds; networks without any policy/disconnect time are not counted as lost (net_expected)']
 LEVEL_TEXT = ('Coq theorems over an executable Gallina model of the ircdb.py writers (preserve/flush) and of unpreserve.Reader.read driving the three '
-              'Creator classes, on the full file text: for every user database in the decidable domain users_dom (safe free-text fields, '
-              'set-like fields stable, no load-time collision) read_users (write_users db) returns exactly the sorted database with no exception; '
-              'refuting witnesses outside the domain (newline in a name injects `capability owner`; blank name stops the load and loses later users; '
-              'leading blank / TAB mangled; empty nick list; hashed flag without password).  The model is tied to the source by regenerated tables '
-              '(keywords, handler names, whitespace/fold tables) and by the differential run against the real dictionaries on every check.')
+              'Creator classes plus IgnoresDB.open/flush, on the full file text.  For every users / channels / networks / ignores database in a decidable '
+              'domain (users_dom, chan_dom, net_dom, ign_dom: safe free-text fields, token fields, set-like fields stable under re-adding, keys distinct '
+              'under folding, no load-time collision) the reader applied to the writer output returns exactly the saved state (users: sorted by id; '
+              'channels: same flags, same capability set, same ban/ignore dictionaries; networks: every network holding a policy or disconnect time; '
+              'ignores: the unexpired entries at whole seconds) and no exception stops the load; proved by induction over the record lists and the lines '
+              'of a record.  Refuting witnesses outside the domains (newline in a name injects `capability owner`; blank name stops the load; leading '
+              'blank / TAB mangled; hashed flag without password; ignore mask starting with #).  The model is tied to the source by regenerated tables '
+              '(keywords, handler names, whitespace/fold tables, creator defaults) and by the differential run against the real dictionaries on every check.')
 LEVEL_NOTE = ('Trusted: Coq kernel, gen_tables.py, extraction + OCaml driver, the Python harness; CPython primitives on their modelled domain; '
-              'hostmask glob matching and the setUser collision handling are modelled and enter the domain predicate.  Channels, networks and '
-              'ignores are modelled and differentially validated and their round trip is checked directly on the implementation; for them only '
-              'refuting witnesses (C16_channels_roundtrip_refuted, C16_ignores_roundtrip_refuted) are Coq theorems, the on-domain round trips are not proved.')
+              'hostmask glob matching and the setUser collision handling are modelled and enter the users domain predicate.  The domain predicates are '
+              'extracted and evaluated on every generated state: a round-trip failure inside a domain is always a VIOLATION, never a known finding.')
 TECHNIQUE = 'Coq proof (induction over records and lines, reader invariant) + regenerated tables + extracted-model differential correspondence'
 EXPLANATION = 'C16: writer/reader model of src/ircdb.py + src/unpreserve.py; theorems in coq/C16/Props.v'
 
@@ -279,10 +281,6 @@ def ws_mangled(inp):
     return False
 
 
-def empty_nicks(inp):
-    return inp.get('db') == 'users' and any(v == [] for u in _final(inp) for _, v in u[8])
-
-
 def hashed_nopw(inp):
     return inp.get('db') == 'users' and any(u[4] and not u[5] for u in _final(inp))
 
@@ -329,7 +327,7 @@ def _cls(f):
 
 CLASSES = {k: _cls(f) for k, f in {
     'field_newline': has_newline, 'name_blank': blank_name, 'field_ws_mangled': ws_mangled,
-    'empty_nick_list': empty_nicks, 'hashed_without_password': hashed_nopw,
+    'hashed_without_password': hashed_nopw,
     'chan_default_anticap_removed': chan_default_removed, 'chan_unsafe_token': chan_unsafe,
     'net_unsafe_token': net_unsafe, 'ignore_unsafe_hostmask': ignore_unsafe}.items()}
 
@@ -658,11 +656,12 @@ def flush_batch(ctx, ircdb, batch):
         if db == 'users':
             cases += [[0, [wire_user(u) for u in before]], [1, [[], text]], [2, [wire_user(u) for u in before]]]
         elif db == 'channels':
-            cases += [[3, [[k, c] for k, c in before]], [4, [[], text]]]
+            cases += [[3, [[k, c] for k, c in before]], [4, [[], text]], [5, [[k, c] for k, c in before]]]
         elif db == 'networks':
-            cases += [[6, [[k, n] for k, n in before]], [7, [[], text]]]
+            cases += [[6, [[k, n] for k, n in before]], [7, [[], text]], [8, [[k, n] for k, n in before]]]
         elif db == 'ignores':
-            cases += [[9, [NOW, [[h, exp_wire(e)] for h, e in before]]], [10, text]]
+            cases += [[9, [NOW, [[h, exp_wire(e)] for h, e in before]]], [10, text],
+                      [11, [NOW, [[h, exp_wire(e)] for h, e in before]]]]
     outs = ctx.model(cases)
     i = 0
     for db, inp, before, text, detail in batch:
@@ -685,10 +684,16 @@ def flush_batch(ctx, ircdb, batch):
             if dom == 0 and detail is None:
                 ctx.dist['users-outside-domain-but-round-trips'] += 1
         elif db == 'channels':
-            w, r = outs[i:i + 2]
-            i += 2
+            w, r, dom = outs[i:i + 3]
+            i += 3
             if w is None:
                 continue
+            if dom == 1:
+                ctx.dist['channels-inside-domain'] += 1
+                if detail is not None:
+                    ctx.fail({'db': 'channels', 'ops': inp['ops'], 'in_domain': True}, 'inside the proved domain: ' + detail)
+            elif detail is None:
+                ctx.dist['channels-outside-domain-but-round-trips'] += 1
             if wire.s(w) != text:
                 ctx.disagree(inp, wire.s(w), text, 'ChannelsDictionary.flush text')
             dump, exc, after = load_chans(ircdb, text)
@@ -697,10 +702,16 @@ def flush_batch(ctx, ircdb, batch):
             if impl != mod:
                 ctx.disagree(inp, mod, impl, 'ChannelsDictionary.open of the flushed text')
         elif db == 'networks':
-            w, r = outs[i:i + 2]
-            i += 2
+            w, r, dom = outs[i:i + 3]
+            i += 3
             if w is None:
                 continue
+            if dom == 1:
+                ctx.dist['networks-inside-domain'] += 1
+                if detail is not None:
+                    ctx.fail({'db': 'networks', 'ops': inp['ops'], 'in_domain': True}, 'inside the proved domain: ' + detail)
+            elif detail is None:
+                ctx.dist['networks-outside-domain-but-round-trips'] += 1
             if wire.s(w) != text:
                 ctx.disagree(inp, wire.s(w), text, 'NetworksDictionary.flush text')
             dump, exc, after = load_nets(ircdb, text)
@@ -709,10 +720,16 @@ def flush_batch(ctx, ircdb, batch):
             if impl != mod:
                 ctx.disagree(inp, mod, impl, 'NetworksDictionary.open of the flushed text')
         elif db == 'ignores':
-            w, r = outs[i:i + 2]
-            i += 2
+            w, r, dom = outs[i:i + 3]
+            i += 3
             if w is None:
                 continue
+            if dom == 1:
+                ctx.dist['ignores-inside-domain'] += 1
+                if detail is not None:
+                    ctx.fail({'db': 'ignores', 'ops': inp['ops'], 'in_domain': True}, 'inside the proved domain: ' + detail)
+            elif detail is None:
+                ctx.dist['ignores-outside-domain-but-round-trips'] += 1
             if wire.s(w) != text:
                 ctx.disagree(inp, wire.s(w), text, 'IgnoresDB.flush text')
             impl = load_ign(ircdb, text)
@@ -862,7 +879,7 @@ def run(ctx):
     for db in ('users', 'channels', 'networks', 'ignores'):
         check_texts(ctx, ircdb, db, [(t, u0) for d, t, u0 in CORPUS_TEXTS if d == db], 'corpus-text-' + db)
     gens = {'users': gen_user_ops, 'channels': gen_chan_ops, 'networks': gen_net_ops, 'ignores': gen_ign_ops}
-    budget = {'users': 700, 'channels': 250, 'networks': 150, 'ignores': 150}
+    budget = {'users': 700, 'channels': 700, 'networks': 700, 'ignores': 700}
     texts = {db: [] for db in gens}
     for db, gen in gens.items():
         for n in range(ctx.n(budget[db])):
